@@ -45,6 +45,41 @@ pub enum QueryClass {
     WrongLength,
 }
 
+/// Memory layout of the batch handed to the builders (the logical n x dim content is always `points`).
+#[derive(Debug, Clone, Copy, PartialEq, Eq, Default, Serialize, Deserialize)]
+pub enum Layout {
+    /// owned, standard (row-major) layout
+    #[default]
+    RowMajor,
+    /// owned, column-major (`.f()`) layout
+    ColMajorOwned,
+    /// `.t()` view of a dim x n standard array
+    TransposedView,
+    /// every second row of a 2n x dim array whose other rows hold junk
+    StridedRows,
+    /// view with a negative row stride over an array holding the rows in reverse order
+    ReversedRows,
+}
+
+/// Public entry point through which the three indices are built.
+#[derive(Debug, Clone, Copy, PartialEq, Eq, Default, Serialize, Deserialize)]
+pub enum Entry {
+    /// `CommonNearestNeighbour::X.from_batch_with_leaf_size`
+    #[default]
+    Enum,
+    /// `LinearSearch` / `KdTree` / `BallTree` unit structs, `from_batch_with_leaf_size`
+    Struct,
+    /// `LinearSearchIndex::new` (takes no leaf size) / `KdTreeIndex::new` / `BallTreeIndex::new`
+    Direct,
+    /// `CommonNearestNeighbour::X.from_batch` (default leaf size)
+    EnumDefaultLeaf,
+    /// unit structs, `from_batch` (default leaf size)
+    StructDefaultLeaf,
+}
+
+pub const ALL_ENTRIES: [Entry; 5] = [Entry::Enum, Entry::Struct, Entry::Direct, Entry::EnumDefaultLeaf, Entry::StructDefaultLeaf];
+pub const ALL_LAYOUTS: [Layout; 5] = [Layout::RowMajor, Layout::ColMajorOwned, Layout::TransposedView, Layout::StridedRows, Layout::ReversedRows];
+
 #[derive(Debug, Clone, PartialEq, Serialize, Deserialize)]
 pub enum Radius {
     /// literal radius (>= 0, finite)
@@ -69,6 +104,9 @@ pub struct Query {
     pub class: QueryClass,
     pub k: usize,
     pub radius: Radius,
+    /// hand the query over as a strided 1-D view (every second element of a doubled array)
+    #[serde(default)]
+    pub strided: bool,
 }
 
 #[derive(Debug, Clone, Serialize, Deserialize)]
@@ -85,6 +123,10 @@ pub struct Case {
     pub leaf: usize,
     /// a query whose length differs from `dim` is a malformed query
     pub queries: Vec<Query>,
+    #[serde(default)]
+    pub layout: Layout,
+    #[serde(default)]
+    pub entry: Entry,
 }
 
 struct Bytes<'a> {
@@ -126,6 +168,7 @@ pub fn case_from_bytes(data: &[u8]) -> Option<Case> {
     let mut b = Bytes { data, pos: 0 };
     let flags = b.u8();
     let single = flags & 1 == 1;
+    let layout = ALL_LAYOUTS[((flags >> 4) as usize) % 8 % ALL_LAYOUTS.len()];
     let metric = match (flags >> 1) & 7 {
         0 => Metric::L1,
         1 => Metric::L2,
@@ -141,6 +184,7 @@ pub fn case_from_bytes(data: &[u8]) -> Option<Case> {
     let leaf = (b.u8() % 20) as usize; // 0 = malformed
     let n = (b.u8() % 33) as usize;
     let mode = b.u8();
+    let entry = ALL_ENTRIES[((mode / 4) as usize) % 8 % ALL_ENTRIES.len()];
     let nq = 1 + (b.u8() % 3) as usize;
     let mut points = Vec::with_capacity(n);
     for _ in 0..n {
@@ -197,7 +241,7 @@ pub fn case_from_bytes(data: &[u8]) -> Option<Case> {
                 (p, QueryClass::Other)
             }
         };
-        queries.push(Query { point, class, k, radius });
+        queries.push(Query { point, class, k, radius, strided: qmode & 8 != 0 });
     }
-    Some(Case { single, metric, class: PointClass::Bytes, dim, points, leaf, queries })
+    Some(Case { single, metric, class: PointClass::Bytes, dim, points, leaf, queries, layout, entry })
 }
